@@ -14,6 +14,18 @@ CHECKS = {
  "C03": dict(design="6/C03", technique="TLA+ spec SigHash.tla (legacy preimage incl. SINGLE constant, calibrated on 290 node vectors on every run): exhaustive TLC model, model cases replayed on CalcInputPreimageLegacy/CalcInputSignatureHash, trace validation with hash obligations",
              text="As C02 for the legacy algorithm: blanking, NONE/SINGLE truncation with sequence zeroing, ANYONECANPAY isolation, the SINGLE out-of-range constant, argument errors and purity, all judged by TLC on every model case and on random transactions.",
              note="Trusted: TLC, SigHash.tla (calibrated against node vectors whose script code has no OP_CODESEPARATOR byte), python hashlib."),
+ "C05": dict(design="6/C05", technique="TLA+ spec ScriptVM.tla (BSV EvalScript/VerifyScript as a state machine, BigNum.tla arithmetic, ScriptTok.tla tokeniser), calibrated on the node's script vectors on every run: exhaustive TLC runs over generated program families (every program emitted and replayed on the real engine) + step-by-step trace validation (Trace_VM) of engine runs recorded through the public debugger API",
+             text="TLC model-checks the interpreter specification over exhaustive opcode x edge-operand tables, control-flow skeletons, shift tables and two-script programs in both eras (totality, termination measure, limits), and every one of those programs plus node vectors, mutated vectors and random programs is run on the real engine; after each instruction both stacks, and finally the verdict, must be the specification's. Bounded refinement check of the code against a model-checked, node-calibrated specification.",
+             note="Trusted: TLC; ScriptVM.tla as calibrated against the node's expected verdicts (1 233 vectors without signature opcodes); python hashlib for hash-opcode results (oracle obligations); operands above 64 bytes and items above 100 000 bytes are outside the enumerated model (trace-validated only / reported as unmodelled); signature opcodes are C06."),
+ "C07": dict(design="6/C07", technique="TLA+ spec ScriptVM.tla: TLC checks totality (Total) and the termination measure on the program families; Trace_VM judges crash-isolated runs of the real engine on arbitrary byte strings, all flag words, odd transaction contexts and three debugger modes (outcome in {ok, err}, step bound)",
+             text="Totality and termination are invariants / action properties of the model-checked interpreter specification; the real engine is then run on exhaustive short byte strings, random and mutated programs, signature/locktime opcodes behind arbitrary stacks (absurd counts included) and incomplete contexts, in child-process isolation with an address-space limit; any outcome other than a value or an error, or more steps than tokens, is an event no specification action explains.",
+             note="Trusted: TLC, the intent-file attribution of a process death, the step limit used to detect non-termination; stack contents are additionally validated where ScriptVM applies (no signature opcodes)."),
+ "C08": dict(design="6/C08", technique="TLA+ spec ScriptVM.tla (stack items are values, so aliasing is impossible in the model): TLC enumerates provenance x transformer x tail programs (family alias), the real engine runs each and Trace_VM compares every item of both stacks after every instruction; caller-held scripts and tx bytes compared before/after every execution",
+             text="Exhaustive enumeration by TLC of the copy/transform combinations the property quantifies over, replayed on the real engine with per-instruction comparison of all stack items against the value-semantics specification, plus byte-for-byte comparison of caller-owned buffers around every recorded execution.",
+             note="Trusted: TLC, the deep-copied snapshots of the public debugger API as observation of the stacks."),
+ "C19": dict(design="6/C19", technique="TLA+ specs DebugLifecycle.tla (callback-order automaton) and ScriptVM.tla: each program is run without, with a recording and with a scribbling debugger; Trace_VM requires equal verdict/error, identical snapshots and callback streams, lifecycle acceptance, and snapshots related by single ScriptVM steps",
+             text="The documented lifecycle is an explicit automaton; TLC accepts or rejects every recorded callback stream, checks that consecutive step snapshots are one specification step apart, and that neither attaching a debugger nor overwriting every snapshot it receives changes verdict, error, snapshots or callback stream, over node vectors, TLC-enumerated families and random programs.",
+             note="Trusted: TLC; the automaton tolerates exactly the undocumented but harmless stack callbacks listed in DebugLifecycle.tla (alt-stack clearing, P2SH stack swap, final pop, a failed pop without AfterStackPop)."),
  "C09": dict(design="6/C09", technique="TLA+ spec TxWire.tla parser + Trace_TxWire.TotalOK: trace validation of every decoding entry point on TLC-fed byte strings, random/truncated/bit-flipped inputs and crafted huge length/count fields, in a crash-isolated harness with allocation measurement",
              text="The parser specification defines the only outcomes (value or error) and the consumed-bytes bound; TLC judges every recorded decode call of the real code (outcome, used <= len, measured allocation <= 64*len+256KiB). Panics and process deaths are events no action explains. Conformance of the code to a model-checked parser on enumerated adversarial inputs.",
              note="Trusted: TLC, runtime.MemStats.TotalAlloc as the allocation sensor (measurement judged by the trace spec, not modelled), RLIMIT_AS 6 GiB + intent file to attribute process death."),
